@@ -230,6 +230,29 @@ def run(seed=0, n=200):
         checks += 1
         if g != w:
             bad.append(("sleep", t, g, w))
+    # ---- truthiness of objects: __bool__ before __len__, else true (classes defined here, concrete attribute values)
+    class _Plain:
+        pass
+
+    class _Len:
+        def __len__(self):
+            return 0 if self.k is None else len(self.k)
+
+    class _Bool(_Len):
+        def __bool__(self):
+            return self.flag
+
+    def _probe(o):
+        return "yes" if o else "no"
+    for cls_, attrs in ((_Plain, {}), (_Len, {"k": None}), (_Len, {"k": []}), (_Len, {"k": [1]}), (_Bool, {"k": None, "flag": True}), (_Bool, {"k": [1, 2], "flag": False})):
+        live = cls_()
+        live.__dict__.update(attrs)
+        E.reset([])
+        g = outcome(lambda: E.call(_probe, [SObj(cls_, dict(attrs))]))
+        w = outcome(lambda: _probe(live))
+        checks += 1
+        if g != w:
+            bad.append(("truthiness", cls_.__name__, attrs, g, w))
     # ---- whole functions of the toolkit on concrete objects
     dm = toolkit("data_msg")
     gs = toolkit("gsm_shared")
